@@ -924,9 +924,11 @@ func checkDecideAndAct(c *Ctx, prop string, fnPred func(*ssa.Function) bool) {
 					continue
 				}
 				relocked := false
+				var relocks []ssa.Instruction
 				for _, l := range locks {
 					if l.path == u.path && instrDominates(u.in, l.in) && instrDominates(l.in, w) {
 						relocked = true
+						relocks = append(relocks, l.in)
 					}
 				}
 				if !relocked {
@@ -955,6 +957,38 @@ func checkDecideAndAct(c *Ctx, prop string, fnPred func(*ssa.Function) bool) {
 						probe(f.B)
 					}
 					if hit != nil {
+						// double-checked: the same question is asked again under the second acquisition
+						// and the write depends on that answer too — the decision is then made and acted
+						// on in one critical section
+						again := false
+						for _, f2 := range ff.FactsAt(w.Block()) {
+							chk := func(t *Term) {
+								if t == nil {
+									return
+								}
+								t.Walk(func(x *Term) bool {
+									if x.Op == "call" && x.Sym == hit.Sym && len(x.Args) >= 1 && x.Args[0].String() == comp && x.Call != nil {
+										if ci, ok := x.Call.(ssa.Instruction); ok {
+											for _, l := range relocks {
+												if instrDominates(l, ci) {
+													again = true
+												}
+											}
+										}
+									}
+									return true
+								})
+							}
+							if f2.IsCmp {
+								chk(f2.L)
+								chk(f2.R)
+							} else {
+								chk(f2.B)
+							}
+						}
+						if again {
+							continue
+						}
 						n++
 						c.Require(prop+".R11 decide-and-act-in-one-critical-section", FuncKey(fn)+": "+CalleeName(w.Common())+" after re-locking", p.InstrPos(w), "guarded state is not written under a second acquisition because of what a read under the first one said ("+f.String()+")", false, "lock given up at "+p.InstrPos(u.in))
 						break
